@@ -3,7 +3,19 @@ import FitProps.WriterStreamLemmas
 # C09 — Output bytes do not depend on writer kind, buffering or batch vs stream
 
 Specification: the destination ends up holding `d₀ ++ Wire.encodeChain o fits` (the wire-level encoder model of C01/C02).
-PROPERTY THEOREMS (audited by ./check): see `checklib/props/C09.py`.
+Model: `FitModel/Writer.lean` (destination, bufio, writerAt/writeSeeker wrappers, the three output paths, stream encoder).
+
+PROPERTY THEOREMS (audited by ./check): C09_bufio_transparent, C09_bufio_eq_direct (any chunking through any buffer size,
+then Flush = direct writes), C09_dryrun_equals_run (early-check strategy: first pass = second pass), C09_same_bytes_batch
+(every kind × buffer size × chain × pre-filled destination leaves `d₀ ++ encodeChain`), C09_kinds_agree,
+C09_stream_equals_batch (under EVERY fault schedule the stream encoder drives the writer exactly as `Encode` does),
+C09_validation_order (validating per message = validating up front, any validator), C09_same_bytes_stream,
+C09_same_bytes (batch on any kind/size = stream on any random-access kind/size).
+The header rewrite itself (`seek_rewrite_correct` / `writeAt_rewrite_correct` of DESIGN §3) is
+`rewriteSeek_spec` / `writeAt_spec` / `updateFileHeader_spec` in FitProps/WriterRewriteLemmas.lean, used through
+`encode_outcome` (FitProps/WriterOutcomeLemmas.lean).
+Assumptions (documented caveats of `encoder.New`): the destination is positioned at its end; a write-at destination
+holds only what this encoder wrote (`n₀ = |d₀|`).
 -/
 namespace Fit.C09
 open Fit.Wire Fit.Writer
